@@ -1,10 +1,234 @@
 import Dmn.Model.Sexp
+import Dmn.Model.Plane
 
-/-! Driver handler for C19 — not implemented yet. -/
+/-!
+Driver handler for C19.
+
+* `(c19 table <spec> <decor> <layout>)` → `((draw <line>…) (plane <display>) (texts <row>…)
+  (post <display>|(none)) (recognized <outcome>) (wf <bool>))`: the drawing of the table, the
+  plane it denotes (`planeOf`), the plane the recogniser leaves behind, and
+  `recognizePlane (planeOf t)`.
+* `(c19 layout <spec> <decor> <slack>)` → `(<spec> <decor> <layout>)`: `autoLayout` — the
+  table with every text padded into its region, and the layout to draw it with
+  (`<slack>` = `(slack (w…) (h…) boxExtra seed)`).
+* `(c19 plane <plane>)` → `(recognized <outcome> (scanner-shape <bool>))`: `recognizePlane` of an arbitrary plane
+  (the plane the real scanner produced for a corrupted drawing).
+
+Encodings: `<opt>` = `(none)` | `(some (s …))`; `<spec>` = `(spec rows|cols|cross <HP>
+<opt name> ((in (s expr) <opt>)…) ((out <opt name> <opt values>)…) <opt label> ((s ann)…)
+((rule ((s)…) ((s)…) ((s)…))…))`; `<decor>` = `(decor (s hp) ((s n)…) <bool split> (s blank)
+((s blank)…) <bool merge>)`; `<layout>` = `(layout (w…) (h…) boxRight)`; `<plane>` = `(plane <opt name>
+(<cell>…)…)` with `<cell>` = `(r id (s text))` | `vo` | `va` | `ho` | `ha` | `mx` | `hx` | `vx`.
+-/
 
 namespace Dmn.Driver.C19
-open Dmn
+open Dmn Dmn.Recog
 
-def handle (_args : List Sexp) : String := "(error not-implemented)"
+def txt (t : Text) : Sexp := Sexp.ofChars t
+
+def opt? : Sexp → Option (Option Text)
+  | .list [.atom "none"] => some none
+  | .list [.atom "some", s] => (Sexp.chars? s).map some
+  | _ => none
+
+def optS : Option Text → Sexp
+  | none => .list [.atom "none"]
+  | some t => .list [.atom "some", txt t]
+
+def hpOfAtom : String → Option HitPolicy
+  | "U" => some .unique | "A" => some .any | "P" => some .priority | "F" => some .first
+  | "R" => some .ruleOrder | "O" => some .outputOrder | "C" => some (.collect .list)
+  | "C+" => some (.collect .sum) | "C#" => some (.collect .count)
+  | "C<" => some (.collect .min) | "C>" => some (.collect .max)
+  | _ => none
+
+def hpAtom (h : HitPolicy) : String := String.ofList h.marker
+
+def orientOfAtom : String → Option Orientation
+  | "rows" => some .ruleAsRow | "cols" => some .ruleAsColumn | "cross" => some .crossTable
+  | _ => none
+
+def orientAtom : Orientation → String
+  | .ruleAsRow => "rows" | .ruleAsColumn => "cols" | .crossTable => "cross"
+
+def texts? (xs : List Sexp) : Option (List Text) := xs.mapM Sexp.chars?
+
+def input? : Sexp → Option InputClause
+  | .list [.atom "in", e, v] => do
+    let e ← Sexp.chars? e
+    let v ← opt? v
+    pure ⟨e, v⟩
+  | _ => none
+
+def output? : Sexp → Option OutputClause
+  | .list [.atom "out", n, v] => do
+    let n ← opt? n
+    let v ← opt? v
+    pure ⟨n, v⟩
+  | _ => none
+
+def rule? : Sexp → Option Rule
+  | .list [.atom "rule", .list a, .list b, .list c] => do
+    let a ← texts? a
+    let b ← texts? b
+    let c ← texts? c
+    pure ⟨a, b, c⟩
+  | _ => none
+
+def spec? : Sexp → Option TableSpec
+  | .list [.atom "spec", .atom o, .atom hp, name, .list ins, .list outs, label, .list anns, .list rules] => do
+    let o ← orientOfAtom o
+    let hp ← hpOfAtom hp
+    let name ← opt? name
+    let ins ← ins.mapM input?
+    let outs ← outs.mapM output?
+    let label ← opt? label
+    let anns ← texts? anns
+    let rules ← rules.mapM rule?
+    pure ⟨o, hp, name, ins, outs, label, anns, rules⟩
+  | _ => none
+
+def specS (t : TableSpec) : Sexp :=
+  .list [.atom "spec", .atom (orientAtom t.orientation), .atom (hpAtom t.hitPolicy), optS t.infoName,
+    .list (t.inputs.map fun i => .list [.atom "in", txt i.expr, optS i.values]),
+    .list (t.outputs.map fun o => .list [.atom "out", optS o.name, optS o.values]),
+    optS t.label,
+    .list (t.annotations.map txt),
+    .list (t.rules.map fun r =>
+      .list [.atom "rule", .list (r.ins.map txt), .list (r.outs.map txt), .list (r.anns.map txt)])]
+
+def decor? : Sexp → Option Decor
+  | .list [.atom "decor", hp, .list nos, split, blank, .list blanks, merge] => do
+    let hp ← Sexp.chars? hp
+    let nos ← texts? nos
+    let split ← Sexp.bool? split
+    let blank ← Sexp.chars? blank
+    let blanks ← texts? blanks
+    let merge ← Sexp.bool? merge
+    pure ⟨hp, nos, split, blank, blanks, merge⟩
+  | _ => none
+
+def layout? : Sexp → Option Layout
+  | .list [.atom "layout", .list ws, .list hs, b] => do
+    let ws ← ws.mapM Sexp.nat?
+    let hs ← hs.mapM Sexp.nat?
+    let b ← Sexp.nat? b
+    pure ⟨ws, hs, b⟩
+  | _ => none
+
+def cell? : Sexp → Option Cell
+  | .list [.atom "r", n, t] => do
+    let n ← Sexp.nat? n
+    let t ← Sexp.chars? t
+    pure (.region n t)
+  | .atom "vo" => some .vOut | .atom "va" => some .vAnn
+  | .atom "ho" => some .hOut | .atom "ha" => some .hAnn
+  | .atom "mx" => some .mainX | .atom "hx" => some .horzX | .atom "vx" => some .vertX
+  | _ => none
+
+def plane? : Sexp → Option Plane
+  | .list (.atom "plane" :: name :: rows) => do
+    let name ← opt? name
+    let rows ← rows.mapM (fun r => match r with
+      | .list cs => cs.mapM cell?
+      | _ => none)
+    pure ⟨name, rows⟩
+  | _ => none
+
+def errName : Err → String
+  | .planeIsEmpty => "planeIsEmpty" | .rowOutOfRange => "rowOutOfRange"
+  | .colOutOfRange => "colOutOfRange" | .noMainDoubleCrossing => "noMainDoubleCrossing"
+  | .invalidOutputClause => "invalidOutputClause" | .invalidRuleNumber n => s!"invalidRuleNumber:{n}"
+  | .cellIsNotRegion => "cellIsNotRegion" | .invalidInputExpressions => "invalidInputExpressions"
+  | .tooManyRows => "tooManyRows" | .noOutputClause => "noOutputClause"
+  | .expectedLeftBelow => "expectedLeftBelow" | .expectedRightAfter => "expectedRightAfter"
+  | .expectedTopLeft => "expectedTopLeft" | .expectedBottomLeft => "expectedBottomLeft"
+  | .expectedNoRuleNumbers => "expectedNoRuleNumbers" | .crossTabNotSupported => "crossTabNotSupported"
+  | .invalidSize k => s!"invalidSize:{k}"
+
+def siteName : Site → String
+  | .hpFirstUnwrap => "hpFirstUnwrap" | .hpLastUnwrap => "hpLastUnwrap"
+  | .horzSkipIndex => "horzSkipIndex" | .horzRuleIndex => "horzRuleIndex"
+  | .vertLastRow => "vertLastRow" | .vertSkipIndex => "vertSkipIndex"
+  | .pivotIndex => "pivotIndex" | .pivotRemove => "pivotRemove"
+  | .rectSub => "rectSub" | .builderIndex => "builderIndex"
+
+def outcomeS : Outcome TableSpec → Sexp
+  | .ok t => .list [.atom "ok", specS t]
+  | .error e => .list [.atom "error", .atom (errName e)]
+  | .panic s => .list [.atom "panic", .atom (siteName s)]
+
+/-- the region texts of a plane, row by row (`-` for a cell that is not a region) -/
+def textsS (rows : List (List Cell)) : Sexp :=
+  .list (.atom "texts" :: rows.map fun r => .list (r.map fun c =>
+    match c with
+    | .region _ t => txt t
+    | _ => .atom "-"))
+
+/-- the plane `recognize_table_components` leaves in the `plane` field -/
+def postRows (P : Plane) : Option (List (List Cell)) :=
+  match recognizeComponents P with
+  | .ok r => some r.plane.rows
+  | _ => none
+
+def slack? : Sexp → Option Slack
+  | .list [.atom "slack", .list ws, .list hs, b, seed] => do
+    let ws ← ws.mapM Sexp.nat?
+    let hs ← hs.mapM Sexp.nat?
+    let b ← Sexp.nat? b
+    let seed ← Sexp.nat? seed
+    pure ⟨ws, hs, b, seed⟩
+  | _ => none
+
+def decorS (d : Decor) : Sexp :=
+  .list [.atom "decor", txt d.hp, .list (d.ruleNos.map txt), Sexp.ofBool d.split, txt d.hpBlank,
+    .list (d.annBlanks.map txt), Sexp.ofBool d.merge]
+
+def layoutS (L : Layout) : Sexp :=
+  .list [.atom "layout", .list (L.colW.map Sexp.ofNat), .list (L.rowH.map Sexp.ofNat), Sexp.ofNat L.boxRight]
+
+/-- which conjuncts of `Plane.scannerShape` fail -/
+def shapeFailures (P : Plane) : List Sexp :=
+  (if 2 ≤ P.rows.length then [] else [Sexp.atom "fewer-than-two-rows"]) ++
+  (if 0 < P.width then [] else [.atom "zero-width"]) ++
+  (if P.rows.all (fun r => r.length == P.width) then [] else [.atom "ragged"]) ++
+  (if P.rows.any (fun r => r.head? == some Cell.hOut) then [] else [.atom "no-double-line-in-first-column"]) ++
+  (match P.rows.getLast? with
+   | some last => if last.contains Cell.vOut then [] else [.atom "no-double-line-in-last-row"]
+   | none => [.atom "no-double-line-in-last-row"]) ++
+  (if P.removeFirstColumn.crossingsOrdered then [] else [.atom "crossings-unordered-rows"]) ++
+  (match P.removeLastRow.pivot with
+   | .ok P' => if P'.crossingsOrdered then [] else [.atom "crossings-unordered-columns"]
+   | _ => [])
+
+def handle (args : List Sexp) : String :=
+  match args with
+  | [.atom "layout", spec, decor, slack] =>
+    match spec? spec, decor? decor, slack? slack with
+    | some t, some d, some k =>
+      let (d', t', L) := autoLayout d t k
+      toString (Sexp.list [specS t', decorS d', layoutS L])
+    | _, _, _ => "(error bad-layout-request)"
+  | [.atom "table", spec, decor, layout] =>
+    match spec? spec, decor? decor, layout? layout with
+    | some t, some d, some L =>
+      let P := if d.merge then planeOfMerged d t else planeOf d t
+      let post := match postRows P with
+        | some rows => .list [.atom "post", txt (displayRows rows), textsS rows]
+        | none => .list [.atom "post", .atom "none"]
+      toString (Sexp.list [
+        .list (.atom "draw" :: (draw d L t).map txt),
+        .list [.atom "plane", txt (displayRows P.rows)],
+        textsS P.rows,
+        post,
+        .list [.atom "recognized", outcomeS (recognizePlane P)],
+        .list [.atom "wf", Sexp.ofBool t.wf]])
+    | _, _, _ => "(error bad-table-request)"
+  | [.atom "plane", plane] =>
+    match plane? plane with
+    | some P => toString (Sexp.list [.atom "recognized", outcomeS (recognizePlane P),
+        .list (.atom "scanner-shape" :: Sexp.ofBool P.scannerShape :: shapeFailures P)])
+    | none => "(error bad-plane-request)"
+  | _ => "(error bad-request)"
 
 end Dmn.Driver.C19
